@@ -863,6 +863,12 @@ func (h *harness) add(c Case) {
 func (h *harness) flush() {
 	q := h.queue
 	h.queue = nil
+	if h.model == nil || len(q) == 0 {
+		for _, c := range q {
+			h.check(c)
+		}
+		return
+	}
 	type pending struct {
 		c      Case
 		canon  string
